@@ -851,7 +851,7 @@ Definition first_n_called (n : nat) (l : list (Z * Z * bool)) : bool := forallb 
 			lockedUntil, lockK := int64(0), int64(0)
 			prevLc := int64(0)
 			streak, lastFailGhost := int64(0), int64(0) // the harness's own count of consecutive evaluated failures
-			cleanupInStreak := false // a cleanup pass ran since the current streak of failures began
+			cleanupInStreak := false                    // a cleanup pass ran since the current streak of failures began
 			for oi, o := range obs {
 				if o.user != ui {
 					continue
